@@ -8,6 +8,7 @@ import MindsVerif.Lemmas.SemSeq
 import MindsVerif.Lemmas.SemAgg
 import MindsVerif.Lemmas.SemSet
 import MindsVerif.Lemmas.SemNames
+import MindsVerif.Lemmas.SemScope
 /-!
 # C08 — executing a federated plan returns what the original query returns
 
@@ -870,5 +871,17 @@ theorem C08_names_witness_keys :
                     w := none, limit := none }
     q.planKeys dottedColumn = some (1, 0) ∧ q.planKeys bareColumn = some (0, 0) ∧
     (q.toQ2).map (fun q2 => (q2.c0, q2.c1)) = some (0, 0) := by decide
+
+/-! ## round 6 (old escapes): one CTE name in several sibling scopes (`Model/SemScope.lean`; tie: probe kind `scopes` only) -/
+
+/-- `plan_cte` rebinds the name for every WITH clause it meets: for sibling scopes (branches of a set operation, derived tables of
+a join) every main select reads the rows of its OWN body, whatever the name was bound to before -/
+theorem C08_scope_siblings (ss : List ScopeQ) (cur : Option Rows) : execScopes false ss cur = evalScopes ss :=
+  execScopes_rebind ss cur
+
+/-- counter-witness: "a name that already has an entry is not planned again" binds the second scope to the first body -/
+theorem C08_scope_witness_skip :
+    execScopes true [([[.int 1]], id), ([[.int 2]], id)] none ≠ evalScopes [([[.int 1]], id), ([[.int 2]], id)] ∧
+    execScopes false [([[.int 1]], id), ([[.int 2]], id)] none = [[.int 1], [.int 2]] := by decide
 
 end MindsVerif.Props.C08
